@@ -18,7 +18,7 @@ from pyasn1.codec.cer import decoder as cer_dec
 
 PROPERTY = 'C10'
 LEVEL = 'fault_enumeration'
-RULE = ('12 guiding types carrying value-range / single-value / size / permitted-alphabet / WITH COMPONENTS constraints '
+RULE = ('19 guiding types carrying value-range / single-value / size / permitted-alphabet / WITH COMPONENTS constraints and their intersection, union and (1- and 2-operand) exclusion, two of them records with an open-type field '
         '(scalars, strings, SEQUENCE OF/SET OF with size bounds, SEQUENCE/SET with OPTIONAL/DEFAULT, CHOICE, nested). Inputs: '
         '(1) reference encodings (DER + indefinite form) of every value of the UNCONSTRAINED type over small domains - i.e. valid values and every '
         'constraint-violating neighbour (out-of-range scalar, members beyond the size bound, forbidden component present); '
@@ -70,7 +70,31 @@ T_WC = CON(('WC', ('b', 'A')), ('SEQ', (('a', INT, 'R', None), ('b', OCTS, 'O', 
 T_WCP = CON(('WC', ('b', 'P')), ('SEQ', (('a', INT, 'R', None), ('b', OCTS, 'O', None))))
 T_CH = ('CHOICE', (('i', T_SV), ('s', U.I(3, T_OCTS))))
 T_NEST = ('SEQ', (('k', INT, 'R', None), ('inner', CON(('SZ', 2, 2), ('SEQOF', ('SEQ', (('a', T_INT, 'R', None),)))), 'R', None)))
-TYPES = [('int-range', T_INT), ('int-sv', T_SV), ('octs-size', T_OCTS), ('utf8-size-alpha', T_UTF8),
+T_EXC2 = CON(('AND', ('VR', -2, 4), ('NOT', ('SV', 2), ('VR', -1, 0))), INT)
+T_OR3 = CON(('OR', ('SV', -2), ('VR', 1, 2), ('SV', 11)), INT)
+T_NOT = CON(('NOT', ('VR', 0, 3)), INT)
+T_SEQ_EXC = ('SEQ', (('n', T_EXC2, 'R', None), ('m', T_OR3, 'O', None), ('l', CON(('SZ', 0, 2), ('SEQOF', T_NOT)), 'O', None)))
+# records with an open type field (decoded here without resolving it, so the field stays ANY) under a presence rule
+_OPEN_FIELDS = (('id', INT, 'R', None), ('blob', U.ANY, 'R', None), ('note', OCTS, 'O', None))
+T_OPEN_WCA = CON(('WC', ('note', 'A')), ('SEQ', _OPEN_FIELDS))
+T_OPEN_WCP = CON(('WC', ('note', 'P')), ('SEQ', _OPEN_FIELDS))
+
+
+def _open_spec(T):
+    from pyasn1.type import univ, namedtype, opentype
+    from mc.model import constraints as C
+    ot = opentype.OpenType('id', {1: univ.Integer(), 2: univ.OctetString()})
+    cls = univ.Sequence if T[2][0] == 'SEQ' else univ.Set
+    return cls(componentType=namedtype.NamedTypes(
+        namedtype.NamedType('id', univ.Integer()),
+        namedtype.NamedType('blob', univ.Any(), openType=ot),
+        namedtype.OptionalNamedType('note', univ.OctetString()))).subtype(subtypeSpec=C.to_pyasn1(T[1]))
+
+
+B._spec_cache[T_OPEN_WCA] = _open_spec(T_OPEN_WCA)
+B._spec_cache[T_OPEN_WCP] = _open_spec(T_OPEN_WCP)
+TYPES = [('int-except2', T_EXC2), ('int-union3', T_OR3), ('int-not', T_NOT), ('seq-except', T_SEQ_EXC),
+         ('open-wc-absent', T_OPEN_WCA), ('open-wc-present', T_OPEN_WCP), ('int-range', T_INT), ('int-sv', T_SV), ('octs-size', T_OCTS), ('utf8-size-alpha', T_UTF8),
          ('seqof-size', T_SEQOF), ('setof-size', T_SETOF), ('seq', T_SEQ), ('set', T_SET), ('set2', T_SET2), ('wc-absent', T_WC),
          ('wc-present', T_WCP), ('choice', T_CH), ('nested', T_NEST)]
 
